@@ -537,10 +537,19 @@ def rule_sticky(ctx, F):
     from rulelib import must_pass
     R = "C18.sticky"
     ctx.floor(R, 4)
+    from rulelib import failed_calls
+    work = []
     for mod in ("base16", "base32", "base64"):
         b = F.body("utils::%s::Decoder::<Builder>::push" % mod)
         if not ctx.anchor(R, "utils::%s::Decoder::push" % mod, b):
             continue
+        work.append((mod, b))
+    done = set()
+    while work:
+        mod, b = work.pop(0)
+        if b.path in done:
+            continue
+        done.add(b.path)
         # blocks that record an error in self.target
         rec = set()
         b.defs()
@@ -560,29 +569,85 @@ def rule_sticky(ctx, F):
                 pass
         rets = b.return_blocks()
         k = 0
+        ok_edges = None
+        # locals whose value is returned as it is: _0, and `res` in `let res = ..; ..; res` (also the return place of a
+        # helper that was inlined)
+        ret_locals = {0}
+        grew = True
+        while grew:
+            grew = False
+            for bi in b.reachable_blocks():
+                for st in b.blocks[bi]["s"]:
+                    if st[0] == "=" and len(st[1]) == 1 and st[1][0] in ret_locals and st[2][0] == "use" \
+                            and st[2][1][0] in ("c", "m") and len(st[2][1][1]) == 1 and st[2][1][1][0] not in ret_locals \
+                            and "Result<" in b.locals[st[2][1][1][0]]:
+                        ret_locals.add(st[2][1][1][0])
+                        grew = True
         for bi in sorted(b.reachable_blocks()):
             if b.blocks[bi].get("c"):
                 continue
             sites = []
             for st in b.blocks[bi]["s"]:
-                if st[0] == "=" and st[1] == [0] and st[2][0] == "agg" and st[2][1][0] == "adt" and st[2][1][1] == "core::result::Result" and st[2][1][2] == "Err":
+                if st[0] == "=" and len(st[1]) == 1 and st[1][0] in ret_locals and st[2][0] == "agg" and st[2][1][0] == "adt" \
+                        and st[2][1][1] == "core::result::Result" and st[2][1][2] == "Err":
                     sites.append(("lit", st))
             tm = b.blocks[bi]["t"]
-            if tm["k"] == "call" and tm.get("dest") == [0] and (tm["fn"] or "").endswith("FromResidual::from_residual"):
+            if tm["k"] == "call" and tm.get("dest") and len(tm["dest"]) == 1 and tm["dest"][0] in ret_locals \
+                    and (tm["fn"] or "").endswith("FromResidual::from_residual"):
                 sites.append(("residual", tm))
+            # the result of another Decoder method handed on as it is (`self.push_char(ch)` as tail expression, or
+            # `let res = self.push_char(ch); ..; res`): its errors are this function's errors
+            if tm["k"] == "call" and re.search(r"utils::%s::Decoder::<Builder>::\w+$" % mod, tm["fn"] or "") and tm.get("dest") \
+                    and len(tm["dest"]) == 1 and "Result<" in b.locals[tm["dest"][0]]:
+                d0 = tm["dest"][0]
+                returned = d0 == 0 or any(
+                    st2[0] == "=" and st2[1] == [0] and st2[2][0] == "use" and st2[2][1][0] in ("c", "m") and st2[2][1][1] == [d0]
+                    for bi2 in b.reachable_blocks() for st2 in b.blocks[bi2]["s"])
+                if returned:
+                    k += 1
+                    recorded_here = any(bi in failed_calls(b, a, F) for a in rec)
+                    callee = F.bodies.get(tm.get("res") or tm["fn"])
+                    if not recorded_here and callee is not None:
+                        work.append((mod, callee))     # then the callee has to record every error it returns
+                    ctx.ob(R, b, "errors of %s are recorded (here or there) #%d" % ((tm["fn"] or "").split("::")[-1], k),
+                           recorded_here or callee is not None,
+                           "%s::Decoder::%s hands on the result of %s without recording its error" % (mod, b.path.split("::")[-1], tm["fn"]),
+                           b.where(bi), detail="recorded on the Err edge here" if recorded_here else "checked in the callee")
             for kind, s in sites:
                 k += 1
-                ok = any(b.dominates(a, bi) for a in rec) or (rec and all(must_pass(b, bi, [r], rec)[0] for r in rets if r in b.reach_from(bi)))
+                # the value just produced is an Err: where the function later looks at the returned local's variant
+                # (`if let Err(err) = res`), only the Err edge is taken
+                if ok_edges is None:
+                    ok_edges = set()
+                    bf_ = BranchFacts(b, F)
+                    for sw in b.reachable_blocks():
+                        if b.blocks[sw]["t"]["k"] != "switch":
+                            continue
+                        # `_d = discriminant(res); switchInt(_d)` in one block, res a returned Result local (Ok = 0, Err = 1)
+                        tsw = b.blocks[sw]["t"]
+                        for st_ in b.blocks[sw]["s"]:
+                            if st_[0] == "=" and st_[2][0] == "discr" and len(st_[2][1]) == 1 and st_[2][1][0] in ret_locals \
+                                    and tsw["d"][0] in ("c", "m") and tsw["d"][1] == st_[1] and "Result<" in str(st_[2][2]):
+                                for s_, lab in b.succs(sw):
+                                    if lab != ("v", 1):
+                                        ok_edges.add((sw, lab))
+                        for lab, (tt_, vv_) in bf_.edge_facts(sw).items():
+                            if isinstance(vv_, tuple) and vv_[0] == "variant" and vv_[1] == "Ok":
+                                root = deep_strip(tt_)
+                                if root[0] in ("local", "phi") and root[1] in ret_locals:
+                                    ok_edges.add((sw, lab))
+                ok = any(b.dominates(a, bi) for a in rec) or (rec and all(must_pass(b, bi, [r], rec, removed_edges=ok_edges)[0]
+                                                                          for r in rets if r in b.reach_from(bi)))
                 if not ok and kind == "lit":
                     # `match self.target { Err(err) => Err(err) }`: the error *is* the recorded one
                     payload = deep_strip(b.term_of_operand(s[2][2][0])) if s[2][2] else None
                     if payload is not None and "target" in show(payload):
                         ok = True
                 ctx.ob(R, b, "error return #%d is recorded in self.target" % k, bool(ok),
-                       "%s::Decoder::push returns an error without recording it in self.target (its base16/base32 siblings "
+                       "%s::Decoder::push (or the helper that does its work) returns an error without recording it in self.target (its base16/base32 siblings "
                        "do): later pushes succeed and finalize() returns Ok -- `Zm9v!YmFy` pushed character by character decodes "
                        "to `foobar`, a failed append to a full buffer leaves a shorter result" % mod, b.where(bi))
-        ctx.ob(R, b, "%s::Decoder::push has error returns" % mod, k >= 1, "no error return found in push", nontrivial=False)
+        ctx.ob(R, b, "%s::Decoder::%s has error returns" % (mod, b.path.split("::")[-1]), k >= 1, "no error return found in push", nontrivial=False)
         # the helper that writes a decoded octet records a failed append (ShortBuf of a bounded target)
         for ab in [x for pth, x in F.bodies.items() if re.match(r"^utils::%s::Decoder::<Builder>::(append|push|push_char)$" % mod, pth)]:
             for bb, tt in ab.calls():
